@@ -1,0 +1,65 @@
+//! Verification doors (feature `verif` only): thin public wrappers around crate-private code so
+//! that an external harness can drive the real implementation. Nothing here is compiled into a
+//! default build.
+#![allow(dead_code, clippy::type_complexity)]
+
+use bytes::Bytes;
+use std::net::SocketAddr;
+
+pub mod udp_codec {
+    use super::*;
+    use crate::http_datagram_codec::{DecodeResult, Decoder as _, Encoder as _};
+    use crate::{downstream, forwarder, http_udp_codec, log_utils};
+    use std::collections::LinkedList;
+
+    pub struct Datagram {
+        pub source: SocketAddr,
+        pub destination: SocketAddr,
+        pub app_name: Option<String>,
+        pub payload: Vec<u8>,
+    }
+
+    /// Feeds `chunks` to the real decoder the way `http_downstream::DatagramDecoder::read` does
+    /// (a non-empty tail is re-queued in front of the next chunk) and returns, per chunk, the
+    /// datagrams completed while that chunk was the newest input.
+    pub fn decode_chunks(chunks: &[Vec<u8>]) -> Vec<Vec<Datagram>> {
+        let mut decoder = http_udp_codec::Decoder::new(log_utils::IdChain::empty());
+        let mut out = Vec::with_capacity(chunks.len());
+        for c in chunks {
+            let mut got = vec![];
+            let mut pending: LinkedList<Bytes> = Default::default();
+            pending.push_back(Bytes::copy_from_slice(c));
+            while let Some(chunk) = pending.pop_front() {
+                match decoder.decode_chunk(chunk) {
+                    DecodeResult::WantMore => (),
+                    DecodeResult::Complete(d, tail) => {
+                        let d: downstream::UdpDatagram = d;
+                        if !tail.is_empty() {
+                            pending.push_front(tail);
+                        }
+                        got.push(Datagram {
+                            source: d.meta.source,
+                            destination: d.meta.destination,
+                            app_name: d.meta.app_name,
+                            payload: d.payload.to_vec(),
+                        });
+                    }
+                }
+            }
+            out.push(got);
+        }
+        out
+    }
+
+    pub fn encode(source: SocketAddr, destination: SocketAddr, payload: &[u8]) -> Option<Vec<u8>> {
+        http_udp_codec::Encoder::default()
+            .encode_packet(&forwarder::UdpDatagram {
+                meta: forwarder::UdpDatagramMeta {
+                    source,
+                    destination,
+                },
+                payload: Bytes::copy_from_slice(payload),
+            })
+            .map(|b| b.to_vec())
+    }
+}
